@@ -585,6 +585,12 @@ def _positive_examples(rep):
         raise AnalysisError("positive example: the cache keyed by too little (_WS_TOTAL) was not flagged by PU-CACHE")
     if any("_WS_SPLIT" in x["construct"] for x in scratch.refutations):
         raise AnalysisError("positive example: the completely keyed cache (_WS_SPLIT) was flagged")
+    from . import memo_rule as _mr
+    cm = {r_["table"] + "@" + r_["fi"].qualname: r_["verdict"] for r_ in _mr.class_level_memos(pp)}
+    if not any(k.endswith("_PowerTable.power") and v == "refuted" for k, v in cm.items()):
+        raise AnalysisError("positive example: the class-level memo keyed without the instance's exponent (_PowerTable) was not flagged")
+    if any(k.endswith("_SquareTable.square") and v == "refuted" for k, v in cm.items()):
+        raise AnalysisError("positive example: the completely keyed class-level memo (_SquareTable) was flagged")
     got["PU-CACHE"] = len(caches)
     # and the clean twin must stay silent
     clean = [x for x in scratch.refutations if "fresh_copy_is_fine" in x["function"] or "fresh_copy_is_fine" in x["construct"]]
@@ -617,6 +623,14 @@ def run(project: Project, rep, tier: str):
     _, mobjs = check_pu_state(project, oa, rep)
     if len(mobjs) < 8:
         raise AnalysisError(f"only {len(mobjs)} mutable default/global objects enumerated; floor is 8")
+    # class-level memo tables (one dictionary shared by every instance): keyed by everything the stored value depends on
+    from . import memo_rule as _mr
+    for r_ in _mr.class_level_memos(project):
+        if r_["verdict"] == "refuted":
+            rep.refuted("PU-CACHE", r_["fi"], r_["node"], r_["why"] + " — results depend on the calls made before",
+                        construct=f"{r_['fi'].qualname}: class-level cache {r_['table']}")
+        else:
+            rep.discharged("PU-CACHE", r_["fi"], r_["node"], r_["why"])
     _, rng_sites = check_pu_rng(project, oa, rep)
     rep.floor("PU-RNG", 1)
     check_pu_plt(project, oa, rep)
